@@ -43,7 +43,7 @@ var statics = []string{"a", "b", "ab", "ba", "c"}
 
 // oddStatics start with bytes on every side of the wildcard markers in byte order ('*' = 0x2A, '{' = 0x7B): child
 // ordering and the param/catch-all child indexes of a node depend on where its static siblings sort.
-var oddStatics = []string{"a", "b", "ab", "c", "$", "!a", "(", "+b", "-", "0", "Z", "_a", "|", "~b", "GET", "GETS", "POST"} // verb names: method roots are keyed by them
+var oddStatics = []string{"a", "b", "ab", "c", "$", "!a", "(", "+b", "-", "0", "Z", "_a", "|", "~b", "GET", "GETS", "POST", "\u00e9", "\u00e9a", "\u00ffb"} // verb names: method roots are keyed by them
 var hostLabels = []string{"a", "b", "ab", "c", "a-b"}                                                                       // a-b: '-' sorts before '.' and '/' among the children of a node
 
 func genSegment(s sim.Source, depth int, cfg PoolCfg, prevCatch bool) (seg string, isCatch bool) {
@@ -272,6 +272,9 @@ func GenPool(s sim.Source, cfg PoolCfg) []*model.Pattern {
 		for i := 1; i <= 27; i++ {
 			raws = append(raws, "/~"+chain[:i])
 		}
+		// ... and edges longer than 255 bytes that fork beyond that offset (positions inside a node's key)
+		long := "/~" + chain + strings.Repeat("e", 300)
+		raws = append(raws, long+"/{p}", long[:len(long)-20]+"f", long+"g/x", long+"/{p}/")
 		for _, raw := range raws {
 			if p, err := model.Parse(raw); err == nil && !seen[raw] {
 				seen[raw] = true
